@@ -1,4 +1,4 @@
-package main
+package main_test
 
 // C08 — bias switches and apply-probabilities behave as documented.
 
